@@ -32,7 +32,12 @@
 #ifndef MAXW
 #define MAXW 8           /* walk bound of the spec: NSEG (<=3) + NINS (<=2) + spare segments created by slice (<=2) */
 #endif
+#ifndef MAXSZ
 #define MAXSZ (1u << 20) /* bound on the segment sizes / offsets the harness builds (sums stay far below 2^31) */
+#endif
+#ifndef AREASZ
+#define AREASZ 1          /* octets of each area object (the block_bytes unit uses real content: 8) */
+#endif
 #define SB(u) container_of(u, struct ubuf_block, ubuf)
 
 /* ---- objects (each segment a separate object) -------------------------------------- */
@@ -40,7 +45,7 @@ static struct ubuf_mgr g_bmgr;
 static struct ubuf_block g_nd0, g_nd1, g_nd2, g_nd3;       /* the block under operation */
 static struct ubuf_block g_in0, g_in1;                     /* the second block */
 static struct ubuf_block g_sp0, g_sp1;                     /* segments the manager stub hands out */
-static uint8_t g_areaA[1], g_areaB[1], g_areaC[1], g_areaD[1];
+static uint8_t g_areaA[AREASZ], g_areaB[AREASZ], g_areaC[AREASZ], g_areaD[AREASZ];
 #define NODE(k) ((k) == 0 ? &g_nd0 : (k) == 1 ? &g_nd1 : (k) == 2 ? &g_nd2 : &g_nd3)
 #define INODE(k) ((k) == 0 ? &g_in0 : &g_in1)
 #define AREA(a) ((a) == 0 ? g_areaA : (a) == 1 ? g_areaB : (a) == 2 ? g_areaC : g_areaD)
@@ -55,7 +60,7 @@ static int g_single_ret;                /* stub: answer to UBUF_SINGLE */
 static int g_nfree; static struct ubuf *g_freed[2];   /* stub: chains released */
 static struct ubuf *g_spl_seg; static int g_spl_off, g_spl_size, g_spl_calls; static struct ubuf *g_spl_ret; /* stub: splice */
 static bool g_stub_bad;
-static uint8_t g_oarea[4];               /* content of the areas at entry (frame: structure operations never write to an area) */
+static uint8_t g_oarea[4][AREASZ];             /* content of the areas at entry (frame: structure operations never write to an area) */
 
 /* ---- manager stub (far side of ubuf_mgr's function pointers; the real one is verified in block_mem) ---- */
 static int stub_blk_control(struct ubuf *ubuf, int command, va_list args)
@@ -100,7 +105,9 @@ static inline bool spec_areas_kept(void);
 #include "blockspec.h"
 static inline bool spec_areas_kept(void)
 {
-    return g_areaA[0] == g_oarea[0] && g_areaB[0] == g_oarea[1] && g_areaC[0] == g_oarea[2] && g_areaD[0] == g_oarea[3];
+    for (int k = 0; k < AREASZ; k++)
+        if (g_areaA[k] != g_oarea[0][k] || g_areaB[k] != g_oarea[1][k] || g_areaC[k] != g_oarea[2][k] || g_areaD[k] != g_oarea[3][k]) return false;
+    return true;
 }
 static struct vsnap g_o, g_oi;          /* the two blocks at entry */
 /* pre-state common to all operations on the first block */
@@ -362,13 +369,14 @@ __CPROVER_ensures(post_splice(ubuf, offset, size, __CPROVER_return_value))
     g_bmgr.signature = UBUF_ALLOC_BLOCK; g_bmgr.ubuf_control = stub_blk_control; g_bmgr.ubuf_free = stub_blk_free; \
     VIN_ARR(uint32_t, soff, 4); VIN_ARR(uint32_t, ssz, 4); VIN_ARR(uint8_t, sarea, 4); VIN_ARR(uint8_t, smap, 4); \
     VIN_ARR(uint32_t, junk, 4); CE_CHOICE(); \
-    VIN_ARR(uint8_t, abytes, 4); g_areaA[0] = g_oarea[0] = abytes[0]; g_areaB[0] = g_oarea[1] = abytes[1]; \
-    g_areaC[0] = g_oarea[2] = abytes[2]; g_areaD[0] = g_oarea[3] = abytes[3]; \
+    VIN_ARR(uint8_t, abytes, 4 * AREASZ); \
+    for (int a_ = 0; a_ < AREASZ; a_++) { g_areaA[a_] = g_oarea[0][a_] = abytes[a_]; g_areaB[a_] = g_oarea[1][a_] = abytes[AREASZ + a_]; \
+        g_areaC[a_] = g_oarea[2][a_] = abytes[2 * AREASZ + a_]; g_areaD[a_] = g_oarea[3][a_] = abytes[3 * AREASZ + a_]; } \
     VIN(size_t, gi); g_i = gi; \
     { size_t pos_ = 0, cpos_ = 0; \
       for (int k_ = 0; k_ < NSEG; k_++) { \
         struct ubuf_block *b_ = NODE(k_); \
-        VASSUME(soff[k_] <= MAXSZ && ssz[k_] <= MAXSZ && sarea[k_] < 4); \
+        VASSUME(soff[k_] <= MAXSZ && ssz[k_] <= MAXSZ && sarea[k_] < 4 && (AREASZ == 1 || soff[k_] + ssz[k_] <= AREASZ)); \
         b_->ubuf.mgr = &g_bmgr; b_->offset = soff[k_]; b_->size = ssz[k_]; b_->buffer = AREA(sarea[k_]); b_->map = (smap[k_] & 1) != 0; \
         b_->next_ubuf = k_ + 1 < NSEG ? &NODE(k_ + 1)->ubuf : NULL; \
         /* fields that only mean something in a head */ \
@@ -390,7 +398,7 @@ __CPROVER_ensures(post_splice(ubuf, offset, size, __CPROVER_return_value))
     { size_t pos_ = 0; \
       for (int k_ = 0; k_ < NINS; k_++) { \
         struct ubuf_block *b_ = INODE(k_); \
-        VASSUME(ioff[k_] <= MAXSZ && isz[k_] <= MAXSZ && iarea[k_] < 4); \
+        VASSUME(ioff[k_] <= MAXSZ && isz[k_] <= MAXSZ && iarea[k_] < 4 && (AREASZ == 1 || ioff[k_] + isz[k_] <= AREASZ)); \
         b_->ubuf.mgr = &g_bmgr; b_->offset = ioff[k_]; b_->size = isz[k_]; b_->buffer = AREA(iarea[k_]); b_->map = false; \
         b_->next_ubuf = k_ + 1 < NINS ? &INODE(k_ + 1)->ubuf : NULL; \
         b_->total_size = 0; b_->cached_ubuf = &b_->ubuf; b_->cached_offset = 0; b_->cached_end_ubuf = NULL; \
@@ -520,6 +528,6 @@ void h_splice(void)
     VCANARY();
 }
 
-#ifdef VENTRY
+#if defined(VENTRY) && !defined(BLOCK_BYTES)
 VMAIN(VENTRY)
 #endif
